@@ -26,6 +26,18 @@ def get_readonly(kind, how, path):
         h = cls(path, accessmode='r+')
         h.accessmode = 'r'
         return h
+    if how == 'after-write':
+        # a handle that HAS successfully written in r+ and is then switched to r
+        h = cls(path, accessmode='r+')
+        h.metadata.update({'k': 1}) if False else None
+        if kind == 'array':
+            h.append(np.ndarray(np.SymDType('int32'), (1,) + tuple(h.shape[1:]), Seq.of(('pre',), 1)))
+            D.array.truncate_array(h, len(h) - 1)
+        else:
+            h.append(np.ndarray(np.SymDType('int32'), (1,) + tuple(h.atom), Seq.of(('pre',), 1)))
+            RA.truncate_raggedarray(h, len(h) - 1)
+        h.accessmode = 'r'
+        return h
     if how == 'md-direct':
         h = cls(path)
         h.metadata.accessmode = 'r+'       # the metadata object's own (public) mode attribute
@@ -75,7 +87,7 @@ def h_readonly(n: int, l2: int, k: int, idxvalid: bool, probe: int, kind='array'
     assume(0 <= n <= RBIG and 0 <= l2 <= RBIG and 0 <= k <= RBIG)
     small(_small, n, l2, k)
     w = new_world()
-    md = {'k': 1, 'z': [1, 2]} if withmeta else None
+    md = ({'k': 1, 'z': [1, 2]} if withmeta != 'single' else {'k': 1}) if withmeta else None
     if kind == 'array':
         assume(l2 == 0)
         put_array(D, w, '/w/x', n, 'int32', 'little', atom, metadata=md)
@@ -138,7 +150,7 @@ def replay_readonly(cex, d):
     if max(n, l2, k) > 3000:
         return {'reproduced': False, 'skip': True, 'detail': 'too large'}
     atom = tuple(fx.get('atom', ()))
-    md = {'k': 1, 'z': [1, 2]} if fx.get('withmeta') else None
+    md = ({'k': 1, 'z': [1, 2]} if fx.get('withmeta') != 'single' else {'k': 1}) if fx.get('withmeta') else None
 
     def tree(p):
         out = {}
@@ -168,6 +180,12 @@ def replay_readonly(cex, d):
             h = cls(p, accessmode='r')
         elif how == 'assigned':
             h = cls(p, accessmode='r+')
+            h.accessmode = 'r'
+        elif how == 'after-write':
+            h = cls(p, accessmode='r+')
+            one = rp.values(np_, 1, atom, 'int32', base=999)
+            h.append(one)
+            (darr.truncate_array if kind == 'array' else darr.truncate_raggedarray)(h, len(h) - 1)
             h.accessmode = 'r'
         elif how == 'md-direct':
             h = cls(p)
@@ -233,7 +251,7 @@ def replay_readonly(cex, d):
 def obligations(tier):
     thorough = tier == 'thorough'
     T = 600 if thorough else 150
-    hows = ['default', 'explicit', 'assigned', 'toggled', 'md-direct']
+    hows = ['default', 'explicit', 'assigned', 'toggled', 'md-direct', 'after-write']
     obs = []
     asplits = []
     for i, mut in enumerate(ARRAY_MUTATORS):
@@ -244,6 +262,18 @@ def obligations(tier):
                 for at in ([(), (2,)] if thorough else [()] if i % 2 else [(2,)]):
                     asplits.append(dict(kind='array', mut=mut, how=how, withmeta=wm, atom=at,
                                         _must=('end', 'refused') if mut == 'delete' else ('end', 'refused', 'succeeded')))
+    # histories the seeded changes taught us: a handle that already wrote successfully, and metadata
+    # holding exactly one item (popitem / pop / del then REMOVE the file instead of rewriting it)
+    for mut in ARRAY_MUTATORS:
+        asplits.append(dict(kind='array', mut=mut, how='after-write', withmeta=True, atom=(),
+                            _must=('end', 'refused') if mut == 'delete' else ('end', 'refused', 'succeeded')))
+    for mut in ('md-pop', 'md-popitem', 'md-del', 'md-update'):
+        for kd in ('array', 'ragged'):
+            (asplits if kd == 'array' else None)
+    single = [dict(kind=kd, mut=mut, how=how, withmeta='single', atom=(), K=1, _must=('end', 'refused', 'succeeded'))
+              for mut in ('md-pop', 'md-popitem', 'md-del', 'md-update') for kd in ('array', 'ragged')
+              for how in ('default', 'assigned')]
+    asplits += [sp for sp in single if sp['kind'] == 'array']
     obs.append(Ob('RO-array', 'h_readonly', splits=asplits, timeout=T, replay='replay_readonly',
                   regions=('empty_array_substitute_writeable',),
                   sym='n (rows, >= 0 so the empty-array path is a value), k, idxvalid, probe',
@@ -258,6 +288,10 @@ def obligations(tier):
                 for K in ((1, 2) if thorough else (2,)):
                     rsplits.append(dict(kind='ragged', mut=mut, how=how, withmeta=wm, atom=() if i % 2 else (2,), K=K,
                                         _must=('end', 'refused') if mut == 'delete' else ('end', 'refused', 'succeeded')))
+    rsplits += [sp for sp in single if sp['kind'] == 'ragged']
+    for mut in ('truncate', 'delete', 'append'):
+        rsplits.append(dict(kind='ragged', mut=mut, how='after-write', withmeta=False, atom=(), K=2,
+                            _must=('end', 'refused') if mut == 'delete' else ('end', 'refused', 'succeeded')))
     obs.append(Ob('RO-ragged', 'h_readonly', splits=rsplits, timeout=T, replay='replay_readonly',
                   regions=('ragged_truncate_empty_values',),
                   sym='n, l2 (subarray lengths >= 0: ragged with empty values is a value), k, probe',
